@@ -11,7 +11,7 @@ LEVEL = 'exploration'
 DAYS = ['2019/12/30', '2019/12/31', '2020/01/01', '2020/02/28', '2020/02/29', '2020/03/01', '2021/02/28', '2021/03/01']
 RULE = ('Engine A: anchor days around month, year and leap boundaries (8 days) -> 8 single-day entries + 36 closed '
         'ranges = 44 entries; EVERY list of <= 2 | <= 3 entries (1 980 | 87 164 lists: all orders, duplications and '
-        'overlaps are in the list space), the empty list; malformed entries (impossible dates, non-dates, empty string, '
+        'overlaps are in the list space; quick adds all 3 375 triples over a 15-entry sub-alphabet of 5 consecutive days), the empty list; malformed entries (impossible dates, non-dates, empty string, '
         'three-part ranges, all 28 reversed ranges, wrong separators) each embedded at every position of valid lists of '
         'length <= 2. Oracle on expand_time_windows(find_days_to_exclude(list)): no duplicates, every element a '
         'midnight timestamp, day set == reference union of closed ranges (datetime.date ordinals); malformed => '
@@ -19,6 +19,7 @@ RULE = ('Engine A: anchor days around month, year and leap boundaries (8 days) -
 ASSUMPTIONS = ['documented format: YYYY/MM/DD and "YYYY/MM/DD - YYYY/MM/DD"; entries that pandas can read but that are not '
                'in this format (e.g. other separators inside a day) are not part of the alphabet except as listed malformed ones']
 
+SUBDAYS = ['2020/02/27', '2020/02/28', '2020/02/29', '2020/03/01', '2020/03/02']
 MALFORMED = ['2020/02/30', '2021/02/29', '2020/13/01', '2020/00/10', 'yesterday', '', ' ', '2020/01/01 - 2020/01/05 - 2020/01/09',
              '2020/01/05 - 2020/02/30', 'abc - 2020/01/01', '2020/01/01 - ', ' - 2020/01/01', '-']
 
@@ -34,6 +35,12 @@ def cases(tier, seed):
     out = [{'list': []}]
     for k in ((1, 2, 3) if tier == 'thorough' else (1, 2)):
         for combo in itertools.product(E, repeat=k):
+            out.append({'list': list(combo)})
+    if tier != 'thorough':
+        # all triples over a 15-entry sub-alphabet (5 consecutive days across the leap day: 5 single days + 10 ranges), so
+        # that bridging / nesting / chaining patterns of three entries occur in every order
+        sub = [d for d in SUBDAYS] + ['%s - %s' % (a, b) for a, b in itertools.combinations(SUBDAYS, 2)]
+        for combo in itertools.product(sub, repeat=3):
             out.append({'list': list(combo)})
     bad = list(MALFORMED) + ['%s - %s' % (b, a) for a, b in itertools.combinations(DAYS, 2)]
     for m in bad:
